@@ -123,6 +123,7 @@ def run(ctx):
         pairs = 0
         for a in range(256):
             I = Interp(repo)
+            I.summaries.pop(lm.qualname, None)
 
             def run_m(st, a=a):
                 I.st = st
